@@ -700,10 +700,48 @@ func (ff *FuncFacts) kill(st FactSet, fld *types.Var) {
 	}
 }
 
+// killCell removes the facts that speak about the current content of a local cell (a variable whose address is
+// taken or that is captured): a store into the cell invalidates them.
+func killCell(st FactSet, a *ssa.Alloc) {
+	if a.Comment == "" {
+		return
+	}
+	for _, tok := range []string{"local:" + a.Comment, "*alloc:" + a.Comment} {
+		for f := range st {
+			if i := strings.Index(f, tok); i >= 0 {
+				end := i + len(tok)
+				if end == len(f) || !isIdentByte(f[end]) {
+					delete(st, f)
+				}
+			}
+		}
+	}
+}
+
+func isIdentByte(b byte) bool {
+	return b == '_' || b >= '0' && b <= '9' || b >= 'a' && b <= 'z' || b >= 'A' && b <= 'Z'
+}
+
 func (ff *FuncFacts) transfer(in ssa.Instruction, st FactSet) {
 	if fld, _, _ := storedField(in); fld != nil {
 		ff.kill(st, fld)
 		return
+	}
+	if sto, ok := in.(*ssa.Store); ok {
+		if a, ok := sto.Addr.(*ssa.Alloc); ok {
+			killCell(st, a)
+			return
+		}
+	}
+	// a call of a closure that captures a cell may write it
+	if cc := callCommon(in); cc != nil {
+		if mc, ok := cc.Value.(*ssa.MakeClosure); ok {
+			for _, b := range mc.Bindings {
+				if a, ok := b.(*ssa.Alloc); ok {
+					killCell(st, a)
+				}
+			}
+		}
 	}
 	switch in.(type) {
 	case *ssa.Call, *ssa.Defer, *ssa.Go:
